@@ -739,6 +739,10 @@ def r7_7(ctx: Ctx) -> RuleResult:
             (f"a {'singular' if singular else 'non-singular'} query" if singular is not None else f"an argument of class {acls}"))
         if not outs:
             raise AnalysisError(f"R7.7: the per-argument check has no outcome for {what}")
+        if "return" in kinds:
+            rr.bad(cw, cw.node, f"for {what} the check of this argument *returns*: the arguments that follow are not checked at all "
+                   "(`match(@.a, @.*)` compiles)", construct=f"{ptype} parameter, {acls}: returns from the loop over the arguments")
+            continue
         accepted = kinds <= {"continue", "fall"}
         refused = kinds == {"raise"}
         if (want and accepted) or (not want and refused):
